@@ -40,6 +40,7 @@ class FEval:
         self.env = None
         self.writes = []
         self.rng = []
+        self.delegate = None      # callback: (class name) -> (ClassInfo, attrs) of another objective class whose f is called
 
     def _attr(self, e):
         if isinstance(e.value, ast.Name) and e.value.id == "self":
@@ -60,11 +61,39 @@ class FEval:
             return s
         raise Untranslatable("conditional expression with non-constant branches")
 
+    def delegated_class(self, recv):
+        """recv is `Cls()` or `self.<a>` with a class-level `a = Cls()` of the analysed class: the name Cls."""
+        if isinstance(recv, ast.Call) and isinstance(recv.func, ast.Name) and not recv.args and not recv.keywords and recv.func.id in self.model.classes:
+            return recv.func.id
+        if isinstance(recv, ast.Attribute) and isinstance(recv.value, ast.Name) and recv.value.id == "self" and getattr(self, "cls_node", None) is not None:
+            for st in self.cls_node.body:
+                if isinstance(st, ast.Assign) and len(st.targets) == 1 and isinstance(st.targets[0], ast.Name) and st.targets[0].id == recv.attr:
+                    return self.delegated_class(st.value)
+        return None
+
     def _call(self, e, T):
         name = norm_src(e.func)
         if name.startswith(("np.random.", "numpy.random.", "random.")):
             self.rng.append(name)
             raise Untranslatable("random draw %s inside f" % name)
+        if isinstance(e.func, ast.Attribute) and e.func.attr == "f" and len(e.args) == 1 and not e.keywords and self.delegate is not None and \
+                isinstance(e.args[0], ast.Name) and isinstance(self.env.get(e.args[0].id), list):
+            cname = self.delegated_class(e.func.value)
+            if cname is not None:
+                cinfo, cattrs = self.delegate(cname)
+                fn = cinfo.methods.get("f")
+                if fn is not None:
+                    sub = FEval(self.model, cinfo.file, cattrs, self.dim, self.atoms)
+                    sub.delegate = self.delegate
+                    sub.cls_node = cinfo.node
+                    paths = sub.run_body([s for s in fn.body if not (isinstance(s, ast.Expr) and isinstance(s.value, ast.Constant))],
+                                         {fn.args.args[1].arg: self.env[e.args[0].id]})
+                    self.rng += sub.rng
+                    self.writes += sub.writes
+                    rets = [p for p in paths if p.expr is not None]
+                    if len(rets) == 1:
+                        return rets[0].expr
+                    raise Untranslatable("delegated objective %s.f has %d value paths" % (cname, len(rets)))
         if isinstance(e.func, ast.Name):
             helper = self.model.module_function(self.file, e.func.id)
             if helper is not None:
